@@ -344,7 +344,8 @@ class Impl:
             'slave_internals': {
                 sl.get_name(): {'webhooks': sl._cached_webhooks, 'reverse': sl._cached_reverse,
                                 'provisioning_webhooks': sl._provisioning_webhooks,
-                                'provisioning_reverse': sl._provisioning_reverse}
+                                'provisioning_reverse': sl._provisioning_reverse,
+                                'cached_attrs': sl._cached_attrs}       # GET /devices shows them with passwords masked
                 for sl in s.slaves_devices.get_all()},
         }
         return json.loads(json.dumps({'ports': ports, 'device': device, 'devices': devices, 'internals': internals,
